@@ -48,11 +48,13 @@ def gen(ctx):
             if n <= 8 or rng.random() < (0.25 if ctx.tier == "quick" else 1.0):
                 yield dict(kind="all", s=s)
     for _ in range(ctx.n(150, 1500)):
-        n = rng.choice([13, 16, 31, 32, 33, 50, 64, 100, 200])
+        n = rng.choice([13, 16, 31, 32, 33, 50, 64, 100, 200, 255, 256, 257, 300, 320, 600])
         style = rng.random()
         if style < 0.2:
             p = "".join(rng.choice("01") for _ in range(rng.randint(1, 4)))
             s = (p * n)[:n]
+        elif style < 0.35:
+            s = rng.choice(["1" * n, "0" * n, ("01" * n)[:n], "1" * (n - 1) + "0"])
         else:
             s = "".join(rng.choice("01") for _ in range(n))
         yield dict(kind="long", s=s)
@@ -64,6 +66,8 @@ def line(c):
 
 def lines(c):
     v = fmt.vec([int(ch) for ch in c["s"]])
+    if len(c["s"]) > 220:
+        return None       # the list-based model is quadratic; long strings are decided by the reference
     ops = ["bderiv", "cbderiv", "tbien", "ktbien"] + (["bien"] if len(c["s"]) <= 40 else [])
     return ["%s s=%s" % (op, v) for op in ops]
 
